@@ -5,6 +5,16 @@ import json, subprocess, os
 ROOT = os.path.dirname(os.path.abspath(__file__))
 
 CHECKS = {
+ "C01": dict(
+  technique="exhaustive enumeration of operator adjacencies, else-attachments and short accepted token sequences + rapid random syntax trees; oracles: differential against a reference precedence-climbing parser, full-paren and ladder-minimal round trips, metamorphic parenthesisation on program output",
+  text="Every sequence of <=3 adjacent operator items (17 binary, both spellings of the logical operators, =, 3 prefix, 4 postfix forms), every sequence of <=6/<=8 statement fragments around if/else/while/for/blocks, every accepted token sequence of <=5/<=6 tokens over a 42-token alphabet, and random trees to depth 8 are parsed by the real parser; the tree (walked through exported node fields) must equal the tree the documented ladder prescribes, and must survive being written out with full and with ladder-minimal parentheses; arithmetic programs must print the same with and without ladder-agreeing parentheses. Exploration: exhaustive inside the stated bounds, sampled beyond.",
+  note="Trusted: the reference parser (table-driven precedence climbing written from grammer.txt) and printers; a printer/reference disagreement is reported as harness trouble (exit 2), never as a violation. Object-literal key order is not compared (the tree keeps keys in a map).",
+  ref="4 C01"),
+ "C08": dict(
+  technique="exhaustive enumeration of fragment strings and of every viable token prefix extended by every token + rapid token-level edits of valid programs + boundary texts; oracle: reference lexer + reference viable-prefix recogniser (accept/reject, line of first non-viable token), nothing-runs checked on stdout/exit status",
+  text="Every concatenation of <=3/<=4 lexical fragments (60-fragment alphabet), every token sequence of <=5/<=6 tokens whose proper prefixes are viable (one line and one token per line), random valid programs with 0-3 token edits re-laid over lines, and boundary texts (254-300 parameters, 1000 arguments, every built-in name in every declaring position, nesting depth 10 000) are fed to the real lexer+parser in-process: no panic, diagnostic <=> error flag, accepted <=> derivable, first diagnostic on the line of the first non-viable token; rejected texts with a runnable prefix must print nothing (batch and CLI, exit 65). Exploration.",
+  note="Trusted: reference lexer and recogniser. Out of domain as the property says: declarations spanning a line break, trailing comma in object literals. A front-end hang would surface as exit 2 (deadline), not as a violation.",
+  ref="4 C08"),
  "C10": dict(
   technique="exhaustive enumeration of code points and short literals + rapid generation of long / halfway / threshold literals, oracle = exact rational arithmetic (math/big), script-swap metamorphic relation, print read-back",
   text="Every Unicode scalar value is transliterated (alone and embedded) and classified; every literal of <=4 (quick) / <=6 (thorough) digits with every point position in ASCII, Bangla and all mixtures is lexed and compared bit for bit with the nearest double of its exact rational value; random literals up to 400+1100 digits including exact midpoints between adjacent doubles and their neighbours, subnormals and the overflow threshold; a sample is printed through the real interpreter and read back. Exploration: exhaustive within the bounds, sampled beyond.",
